@@ -82,6 +82,28 @@ def gen(rng, tier):
             cases.append("ascii %s u%s" % (ctor, ",".join(map(str, t))))
         if len(t) >= 1:
             cases.append("ascii char u%d" % t[0])
+    # 3b. repeated fields with the SAME spelling and the SAME value (a lookup must count fields, not distinct
+    #     name/value pairs), and long collections (33..80 fields: removal must stay order-preserving at any size)
+    for name in ("a", "A", "accept"):
+        for k in (2, 3):
+            same = [("A", name, "v")] * k
+            for tail in ([("G", name)], [("L", name)], [("R", name)], [("X", name)], [("A", "b", "w"), ("G", name)],
+                         [("G", name.swapcase())]):
+                cases.append("ops " + " ".join(op_str(o) for o in same + tail))
+            cases.append("ops " + " ".join(op_str(o) for o in [("A", name, "v"), ("A", "b", "w"), ("A", name, "v"), ("G", name), ("R", name), ("L", name)]))
+            cases.append("ops " + " ".join(op_str(o) for o in [("A", name, "p1"), ("A", name.swapcase(), "p2"), ("A", name, "p1"), ("G", name), ("X", name)]))
+    for n in (33, 34, 40, 64, 80) if tier == "quick" else (20, 21, 32, 33, 34, 40, 50, 64, 65, 80, 128, 200):
+        for rep in range(2 if tier == "quick" else 5):
+            ops = []
+            for i in range(n):
+                nm = rng.choice(["a", "A", "b", "c", "x-%d" % i, "x-%d" % i])
+                ops.append(("A", nm, "%d" % i))
+            for q in (("L", "a"), ("X", "a"), ("R", "b"), ("X", "c"), ("L", "x-1")):
+                ops.append(q)
+            cases.append("ops " + " ".join(op_str(o) for o in ops))
+            fields = [(rng.choice(["content-type", "host", "x-%d" % i, "via", "expect", "Via"]), "v%d" % i) for i in range(n)]
+            fields[rng.randrange(n // 2)] = ("transfer-encoding", "gzip")
+            cases.append(req_case("GET", [(a, b if a not in ("content-type", "expect") else {"content-type": "text/plain", "expect": "100-continue"}[a]) for a, b in fields]))
     # 4. request level ("the header list a handler sees is the list the client sent, in order, minus the consumed
     #    fields"): every order of 0..3 ordinary fields with 0..3 of the consumed fields (exhaustive), then random requests
     #    with 0..12 fields, repeated and case-varied consumed names, adjacent consumed fields
